@@ -173,7 +173,7 @@ def dimsFromData (k : Kind) (labels : Labels) : Option (Int × Int × Int × Int
     let maxLine := maxD 0 (keys.map (·.2)) + 1
     let iMin := minD 0 (keys.map (·.1))
     let jMin := minD 0 (keys.map (·.2))
-    if iMin > 0 ∨ jMin > 0 then none else some (ijMax, 0, maxCol, maxLine)
+    if iMin ≠ 0 ∨ jMin ≠ 0 then none else some (ijMax, 0, maxCol, maxLine)
   | .third | .full =>
     let maxI := maxD (-1) ((keys.filter (fun c => c.2 == 0)).map (·.1))
     let off0 := (ijMax - maxI) * 2 - 1
